@@ -151,10 +151,80 @@ def run_walk(payload):
         got_args.extend(a)
         return RETURNS[kind]
 
+    exposed = _callable_of_kind(payload.get("callable", "function"), hostfn)
+
     def setup(ctx):
-        ctx._globals["hostfn"] = ctx._to_js(hostfn)
+        how = payload.get("install", "to_js")
+        if how == "to_js":
+            ctx._globals["hostfn"] = ctx._to_js(exposed)
+        elif how == "set":
+            ctx.set("hostfn", exposed)                      # the public API
+        else:
+            ctx.set("api", {"f": exposed, "l": [exposed]})   # nested inside host containers
+            ctx.eval("var hostfn = api.f, hostfn2 = api.l[0];")
 
     oc, ctx = e.run_program(payload["src"], tl=50, setup=setup, want_ctx=True)
+    bad = _walk(e, ctx, got_args, payload.get("result", "undefined"), exposed, RETURNS.get(kind), inner=hostfn)
+    return ("ok" if not bad else "; ".join(bad[:6])) + "\x00ok"
+
+
+CALLABLE_KINDS = ["function", "lambda", "partial", "wraps-decorated", "lru_cache", "bound-method", "callable-instance", "staticmethod",
+                  "classmethod", "nested-closure"]
+
+
+def _callable_of_kind(kind, fn):
+    """The same host function exposed as different kinds of Python callable."""
+    import functools
+    if kind == "function":
+        return fn
+    if kind == "lambda":
+        return lambda *a: fn(*a)
+    if kind == "partial":
+        return functools.partial(fn)
+    if kind == "wraps-decorated":
+        @functools.wraps(fn)
+        def deco(*a):
+            return fn(*a)
+        return deco
+    if kind == "lru_cache":
+        # the cache is bypassed (maxsize=0) but the object is a functools._lru_cache_wrapper with __wrapped__
+        return functools.lru_cache(maxsize=0)(lambda *a: fn(*[x if isinstance(x, (int, float, str, bool, type(None))) else 0 for x in a]))
+
+    class Holder:
+        def method(self, *a):
+            return fn(*a)
+
+        def __call__(self, *a):
+            return fn(*a)
+
+        @staticmethod
+        def smethod(*a):
+            return fn(*a)
+
+        @classmethod
+        def cmethod(cls, *a):
+            return fn(*a)
+    if kind == "bound-method":
+        return Holder().method
+    if kind == "callable-instance":
+        return Holder()
+    if kind == "staticmethod":
+        return Holder.smethod
+    if kind == "classmethod":
+        return Holder.cmethod
+    if kind == "nested-closure":
+        def outer():
+            def inner(*a):
+                return fn(*a)
+            return inner
+        return outer()
+    raise ValueError(kind)
+
+
+def _walk(e, ctx, got_args, result_src, hostfn, handed_out=None, inner=None):
+    """Everything reachable from the globals, every host-function argument and the value of result_src must be JavaScript values."""
+    V = e._values
+    import types
     bad = []
     seen = set()
 
@@ -164,7 +234,10 @@ def run_walk(payload):
             if isinstance(v, types.MethodType):
                 mod = getattr(v.__func__, "__module__", "") or ""
             return (mod.startswith("microjs") or mod.startswith("mc.") or getattr(v, "__wrapped__", None) is hostfn or v is hostfn
-                    or (getattr(v, "__wrapped__", None) is not None and getattr(v, "__wrapped__") is RETURNS.get(kind)))
+                    or (getattr(v, "__wrapped__", None) is not None and getattr(v, "__wrapped__") is handed_out))
+        own = [f for f in (hostfn, inner) if f is not None]
+        if any(v is f or getattr(v, "__wrapped__", None) is f or getattr(v, "func", None) is f for f in own):
+            return True     # the embedder's own callable, however it is spelled
         return isinstance(v, getattr(V, "JSBoundMethod", ())) or isinstance(v, getattr(V, "JSCallableObject", ()))
 
     stack = [("global." + k, v) for k, v in ctx._globals.items()]
@@ -188,7 +261,7 @@ def run_walk(payload):
             if getattr(v, "_prototype", None) is not None:
                 stack.append((path + ".<proto>", v._prototype))
             if isinstance(v, V.JSArray):
-                for i, x in enumerate(v._elements[:50]):
+                for i, x in enumerate(v._elements[:2000]):
                     stack.append(("%s[%d]" % (path, i), x))
             continue
         if isinstance(v, V.JSFunction):
@@ -208,19 +281,20 @@ def run_walk(payload):
     # what eval hands back to Python
     try:
         e.CLOCK.reset("poll")
-        r = ctx.eval(payload.get("result", "undefined"))
+        r = ctx.eval(result_src)
         rs = [("eval result", r)]
         m = 0
-        while rs and m < 5000:
+        while rs and m < 20000:
             path, v = rs.pop()
             m += 1
             if isinstance(v, list):
-                rs += [("%s[%d]" % (path, i), x) for i, x in enumerate(v[:50])]
+                rs += [("%s[%d]" % (path, i), x) for i, x in enumerate(v[:2000])]
             elif isinstance(v, dict):
                 rs += [(path + "." + str(k), x) for k, x in v.items()]
             elif isinstance(v, ALLOWED_PY_RESULT) or isinstance(v, (V.JSFunction, V.JSObject)) or v is hostfn or is_native(v):
                 continue
-            elif callable(v) and v is RETURNS.get(kind):
+            elif callable(v) and (v is handed_out or v is hostfn or v is inner or v is getattr(hostfn, "__wrapped__", None)
+                                  or v is getattr(hostfn, "func", None)):
                 continue        # a callable the embedder's own function handed out: exposed by the embedder, not an engine internal
             else:
                 bad.append("%s handed to Python is a %s" % (path, type(v).__name__))
@@ -228,7 +302,7 @@ def run_walk(payload):
         pass
     except Exception as ex:  # noqa: BLE001
         bad.append("reading the result raises host " + type(ex).__name__)
-    return ("ok" if not bad else "; ".join(bad[:6])) + "\x00ok"
+    return bad
 
 
 def _probe_cases():
@@ -255,13 +329,40 @@ WALK_EXTRA = [
 ]
 
 
+OPERANDS = "[-8, 0.5, 1 / 3, NaN, Infinity, -Infinity, -0, 1e308, 5e-324, 9007199254740993, 'x', '', '7', null, undefined, true, {}, [], [2]]"
+
+
 def _walk_cases():
     out = [("walk after: " + name, {"src": src, "result": res}) for name, src, res in WALK_EXTRA]
+    for op in ["+", "-", "*", "/", "%", "**", "&", "|", "^", "<<", ">>", ">>>", "<", "<=", "==", "===", "&&", "||", "in", "instanceof"]:
+        src = ("var V = %s, res = []; for (var i = 0; i < V.length; i++) for (var j = 0; j < V.length; j++) { try { res.push(V[i] %s V[j]) } "
+               "catch (e) { res.push(e) } }" % (OPERANDS, op))
+        out.append(("walk after: operator %s on every pair of 19 special operands" % op, {"src": src, "result": "res"}))
+    for op in ["-", "+", "!", "~", "typeof ", "void "]:
+        src = "var V = %s, res = []; for (var i = 0; i < V.length; i++) { try { res.push(%sV[i]) } catch (e) { res.push(e) } }" % (OPERANDS, op)
+        out.append(("walk after: unary %s on 19 special operands" % op.strip(), {"src": src, "result": "res"}))
+    for op in ["+=", "-=", "*=", "/=", "%=", "**=", "&=", "|=", "^=", "<<=", ">>=", ">>>="]:
+        src = ("var V = %s, res = [], o = {}; for (var i = 0; i < V.length; i++) for (var j = 0; j < V.length; j++) { try { var t = V[i]; t %s V[j]; "
+               "o.p = V[i]; o.p %s V[j]; res.push(t, o.p) } catch (e) { res.push(e) } }" % (OPERANDS, op, op))
+        out.append(("walk after: compound %s on every pair of 19 special operands" % op, {"src": src, "result": "res"}))
+    for upd in ["t++", "++t", "t--", "--t"]:
+        src = ("var V = %s, res = []; for (var i = 0; i < V.length; i++) { try { var t = V[i]; res.push(%s, t) } catch (e) { res.push(e) } }"
+               % (OPERANDS, upd))
+        out.append(("walk after: update %s on 19 special operands" % upd, {"src": src, "result": "res"}))
     for kind in ("tuple", "bytes", "object", "class", "lambda", "set", "nested", "gen", "complex", "none"):
         src = ("var h = hostfn(); var keep = [h, {k: h}]; var viaCall = [1].map(hostfn); var viaMethod = ({m: hostfn}).m(); "
                "var t = typeof h; var called; try { called = typeof h === 'function' ? h() : 'n/a' } catch (e) { called = 'threw' }")
         out.append(("walk after: exposed callable returning a Python %s" % kind,
                     {"src": src, "result": "[h, keep, viaCall, viaMethod, called]", "host_returns": kind}))
+    for ck in CALLABLE_KINDS:
+        for how in ("to_js", "set", "nested"):
+            for kind in ("int", "tuple", "nested", "object", "none", "lambda"):
+                src = ("var h = hostfn(1, 'a', [1, {k: 2}], null); var keep = [h, {k: h}]; var viaCall = [1].map(hostfn); "
+                       "var viaMethod = ({m: hostfn}).m(); var viaBind = hostfn.bind(null, 5)(6); var viaApply = hostfn.apply(null, [7, [8]]); "
+                       "var again = hostfn(h);")
+                out.append(("walk after: %s exposed by %s returning a Python %s" % (ck, how, kind),
+                            {"src": src, "result": "[h, keep, viaCall, viaMethod, viaBind, viaApply, again, hostfn]", "host_returns": kind,
+                             "callable": ck, "install": how}))
     from mc.gen import programs as P
     import itertools
     n = 0
@@ -273,6 +374,62 @@ def _walk_cases():
             n += 1
             src = P.skeleton_source(body, "r = [0, f(), 2];")
             out.append(("walk after skeleton %s exit %s" % (">".join(chain), ex), {"src": src, "result": "r"}))
+    return out
+
+
+# ---------------------------------------------------------------------------------------------
+# Part 3: what every built-in hands to the script (results, callback arguments, thrown values)
+
+API_ARGS = ["", "cb", "cb, 0", "'b'", "/(x)?b|(c)/g, cb", "/(x)?(b)/, cb", "/(x)?b/", "-8, 0.5", "-8, 1 / 3", "2, 0.5", "0", "-1", "null",
+            "[1, [2]]", "({a: 1, b: [2]})", "'{\"a\":[1,null]}', cb", "{a: 1}, cb", "hostfn", "1e400", "NaN"]
+
+
+def run_api_walk(payload):
+    e = _engine()
+    from mc.props import c04
+    recv, name = payload["recv"], payload["name"]
+    rsrc = c04.RECEIVERS[recv] if recv else None
+    got_args = []
+
+    def hostfn(*a):
+        got_args.extend(a)
+        return 1
+
+    def setup(ctx):
+        ctx.set("hostfn", hostfn)
+
+    target = ("r.%s" % name) if recv else name
+    try:
+        probe = e.Context()
+        present = probe.eval(("typeof %s[%r] === 'function'" % (rsrc, name)) if recv else ("typeof %s === 'function'" % name))
+    except Exception:  # noqa: BLE001
+        present = False
+    if not present:
+        return "absent\x00absent"
+    bad = []
+    for av in API_ARGS:
+        for form in (["%s(%s)"] if recv else ["%s(%s)", "new %s(%s)"]):
+            call = form % (target, av)
+            src = ("var seen = [], out, thrown; function cb() { seen.push(this); for (var i = 0; i < arguments.length; i++) seen.push(arguments[i]); "
+                   "return 1 }\n" + ("var r = %s;\n" % rsrc if recv else "") + "try { out = %s } catch (e) { thrown = e }\n"
+                   "var again; try { again = typeof out === 'function' ? out(1) : out && out.next ? out.next() : out && out[0] } catch (e) { }" % call)
+            oc, ctx = e.run_program(src, tl=50, setup=setup, want_ctx=True)
+            for b in _walk(e, ctx, got_args, "[out, seen, thrown, again]", hostfn):
+                bad.append("%s: %s" % (call, b))
+            del got_args[:]
+            if len(bad) >= 6:
+                break
+    return ("ok" if not bad else "; ".join(bad[:6])) + "\x00ok"
+
+
+def _api_walk_cases():
+    from mc.props import c04
+    out = []
+    for recv in c04.RECEIVERS:
+        for name in c04.CANDIDATES:
+            out.append(("results of %s.%s" % (recv, name), {"recv": recv, "name": name}))
+    for name in c04.GLOBAL_FUNCS:
+        out.append(("results of %s(...)" % name, {"recv": None, "name": name}))
     return out
 
 
@@ -289,7 +446,14 @@ def spaces(tier, seed, all_strata=False):
         _sp("c03_walk", "run_walk", _walk_cases,
             "object-graph walk after 16 hand-picked scripts and every two-level control-flow skeleton over 8 constructs x 5 "
             "exits used as an array-literal operand: every reachable value, every eval result and every host-function "
-            "argument is a JavaScript value", "corpus", batch=10),
+            "argument is a JavaScript value; plus the same host function exposed as 10 kinds of Python callable x 3 ways of "
+            "installing it x 6 kinds of return value", "corpus", batch=10),
+        _sp("c03_api_walk", "run_api_walk", _api_walk_cases,
+            "every built-in method present on 35 receiver kinds and every global function, called with %d argument vectors (callbacks "
+            "that record this and their arguments, regexes with groups that do not take part, negative bases with fractional "
+            "exponents, an exposed host function as callback, ...): the result, what a callback received, a thrown value and one "
+            "further step on the result are walked together with all globals" % len(API_ARGS), "receivers x methods x %d" % len(API_ARGS),
+            batch=20),
     ]
 
 
@@ -297,4 +461,6 @@ def signature(sp, cid, payload, exp, obs):
     first = obs.split("; ")[0]
     if sp.name == "c03_names":
         return "names|" + cid, "internal attribute name behaves unlike an unknown property on %s: %s" % (cid, first[:90])
+    if sp.name == "c03_api_walk":
+        return "apiwalk|" + cid, "a built-in hands the script a non-JavaScript value (%s): %s" % (cid, first[:120])
     return "walk|" + first.split(" is a ")[-1][:30], "reachable non-JavaScript value: " + first[:120]
